@@ -127,12 +127,28 @@ impl EntryTrait for IndexEntry {
     }
 }
 
+/// Split a timestamp into whole seconds, rounded towards negative infinity, and
+/// the non-negative number of nanoseconds past that second.
+pub(crate) fn floor_second_and_nanos(t: &Timestamp) -> (i64, u32) {
+    let mut secs = t.as_second();
+    let mut nanos = t.subsec_nanosecond();
+    if nanos < 0 {
+        secs -= 1;
+        nanos += 1_000_000_000;
+    }
+    (secs, nanos as u32)
+}
+
 impl IndexEntry {
     /// Copy the metadata, but not the body content, from another entry.
     ///
     /// The result has no blocks.
     pub(crate) fn metadata_from(source: &source::Entry) -> IndexEntry {
         let mtime = source.mtime();
+        // jiff splits a pre-epoch time with a fractional part into a negative
+        // second and a negative sub-second; the index stores an unsigned
+        // nanosecond field, so store the floor of the seconds instead.
+        let (mtime_secs, mtime_nanos) = floor_second_and_nanos(&mtime);
         assert_eq!(
             source.symlink_target().is_some(),
             source.kind() == Kind::Symlink
@@ -142,8 +158,8 @@ impl IndexEntry {
             kind: source.kind(),
             addrs: Vec::new(),
             target: source.symlink_target().map(|t| t.to_owned()),
-            mtime: mtime.as_second(),
-            mtime_nanos: mtime.subsec_nanosecond().try_into().unwrap(),
+            mtime: mtime_secs,
+            mtime_nanos,
             unix_mode: source.unix_mode(),
             owner: source.owner().to_owned(),
         }
